@@ -334,6 +334,84 @@ def run_tree(dset, skip):
             'shown': False, 'po': 'c', 'pa': '0', 'src': src, 'dset': list(dset), 'out_items': shown, 'ctx': 'tree'}, out
 
 
+class _CookieResp:
+    cookie = None
+
+    def setCookie(self, name, value, **k):
+        if name == 'tree-s':
+            self.cookie = value
+
+
+TREE_CTX = ('plain', 'subtemplate', 'in-plain-subtemplate', 'plain-subtemplate-used-unguarded-before',
+            'guarded-template-used-in-plain-before')
+
+
+def run_tree_attr(secret, mode, ctx, variant):
+    """the attribute that hands out a node's branches is refused for one node (k1): whatever the tag then does, nothing below that
+    node may be shown -- on the first rendering, after expand_all, and after a click on the node's own expand link; also when
+    the template object was used in a namespace without guards before"""
+    import re
+    from zExceptions import Unauthorized
+    from DocumentTemplate.DT_HTML import HTML as _PlainHTML
+    battr = ('kids', 'tpValues')[variant % 2]
+    g = [Client('g%d' % i, tpId=Method('%s-%d' % (secret if i == 1 else 'open', i)), tpURL=Method('ug%d' % i),
+                **{battr: Method([])}) for i in range(3)]
+    kids = [Client('k%d' % i, tpId=Method('v%d' % i), tpURL=Method('u%d' % i), **{battr: Method(Seq('s%d' % i, [g[i]]))})
+            for i in range(3)]
+    root = Client('root', tpId=Method('r'), tpURL=Method('ur'), **{battr: Method(Seq('c', kids))})
+    src = '<dtml-tree root%s%s>ROW:<dtml-var tpId>;</dtml-tree>' % (' branches=kids' if battr == 'kids' else '',
+                                                                   ' skip_unauthorized=1' if variant % 3 == 1 else '')
+    Policy.deny = frozenset([('k1', battr)])
+
+    def once(extra):
+        resp = _CookieResp()
+        kw = dict(URL='http://h/doc', RESPONSE=resp, root=root)
+        kw.update(extra)
+        if ctx == 'plain':
+            t = gclass()(src)
+        elif ctx == 'subtemplate':
+            kw['inner_tpl'] = gclass()(src)
+            t = gclass()('<dtml-var inner_tpl>')
+        elif ctx == 'in-plain-subtemplate':
+            kw['inner_tpl'] = _PlainHTML(src)
+            t = gclass()('<dtml-var inner_tpl>')
+        elif ctx == 'plain-subtemplate-used-unguarded-before':
+            kw['inner_tpl'] = _PlainHTML(src)
+            try:
+                kw['inner_tpl'](**dict(kw, RESPONSE=_CookieResp()))
+            except BaseException:  # noqa
+                pass
+            t = gclass()('<dtml-var inner_tpl>')
+        else:
+            t = gclass()(src)
+            try:
+                _PlainHTML('<dtml-var g_tpl>')(g_tpl=t, **dict(kw, RESPONSE=_CookieResp()))
+            except BaseException:  # noqa
+                pass
+        del LOG[:]
+        try:
+            return str(t(**kw)), 'value', resp.cookie
+        except Unauthorized:
+            return 'RAISED Unauthorized', 'unauthorized', resp.cookie
+        except BaseException as e:  # noqa
+            return 'RAISED %s: %s' % (type(e).__name__, str(e)[:100]), 'other:' + type(e).__name__, resp.cookie
+    if mode == 'first':
+        out, obs, _ = once({})
+    elif mode == 'expand_all':
+        out, obs, _ = once({'expand_all': 1})
+    else:
+        # click: the expand link the tag generated for k1 on a first rendering (made with nothing refused), followed under the guard
+        Policy.deny = frozenset()
+        first, _, cookie = once({})
+        Policy.deny = frozenset([('k1', battr)])
+        m = re.search(r'<a name="v1" href="[^"?]*\?(tree-[ec])=([^#"]*)#', first)
+        if not m or cookie is None:
+            return None, None
+        out, obs, _ = once({m.group(1): m.group(2), 'tree-s': cookie})
+    return {'ch': 'tree-branches-attr', 'kind': 'treeattr', 'cls': 'denied', 'ev': list(LOG), 'obs': obs,
+            'shown': secret in out, 'po': 'k1', 'pa': battr, 'src': src, 'ctx': '%s/%s' % (ctx, mode)}, out
+
+
 def secrets(ch, which):
     """the value behind the probed attribute in run A / run B (same type, different content; for sort and
     statistics channels the two runs order / sum differently)"""
@@ -492,6 +570,18 @@ def main(tier):
                     ra, oa = run_tree(dset, skip)
                     recs.append(ra)
                     meta.append((('tree-branches', ra['kind'], ra['src'], None, ('c', '0')), 'denied', ra, oa, ra, oa))
+    # dtml-tree: the branches attribute itself is refused for one node
+    k = 0
+    for ctx in TREE_CTX:
+        for mode in ('first', 'expand_all', 'click'):
+            for variant in range(6):
+                k += 1
+                ra, oa = run_tree_attr('SECRET-A-VALUE', mode, ctx, variant)
+                rb, ob = run_tree_attr('SECRET-B-VALUE', mode, ctx, variant)
+                if ra is None or rb is None:
+                    common.machinery_failure('tree driver: no expand link for the probed node (%s, %s, %d)' % (ctx, mode, variant))
+                recs.append(ra)
+                meta.append((('tree-branches-attr', 'treeattr', ra['src'], None, ('k1', ra['pa'])), 'denied', ra, oa, rb, ob))
     # binding self-test: a trace whose guard call is removed must show an unmediated read
     n_real = len(recs)
     for r in list(recs[:200]):
